@@ -329,8 +329,16 @@ def run(tier):
         "operators_switched_off_by_known_findings": sorted(avoid),
         "mutants_set_aside_by_known_findings": {k["label"]: k["hits"] for k in live if not k.get("avoid")},
     }
+    # the absolute half on a core fragment: spec/TypeRules.tla (typing judgment + evaluator, soundness model-checked) enumerates
+    # every small term with its verdict; a term the rules call ill-typed and the checker accepts is a violation of C06
+    import typerules
+    tstats = {}
+    tfails, tcov = typerules.run_typerules(tier, outdir("typerules"), tstats, only={"C06"})
+    fails += tfails
+    coverage.update(tcov)
     write_evidence(PID, tier, "fault_enumeration", coverage,
-                   ["mutants are single-fault: one textual splice per mutant at a site found in the typed AST of the accepted original",
+                   ["TypeRules.tla: [RULE] clauses cite spec.md, [XCR] clauses transcribe checker behaviour (hint flow, implicit instantiation); a well-typed term the checker rejects is MODEL-DRIFT, never a violation",
+                    "mutants are single-fault: one textual splice per mutant at a site found in the typed AST of the accepted original",
                     "the offending module of a visibility fault is every module that uses the now-private name, of an un-implemented class every module "
                     "that instantiates a bounded type parameter with it; of every other fault the edited module",
                     "artefacts_present is observed on samlang_compiler::compile_sources (the function the command line calls), not on the CLI's file output",
@@ -342,6 +350,9 @@ def run(tier):
 
 
 def replay(path):
+    if json.load(open(path)).get("kind") == "typerules-term":
+        import typerules
+        return typerules.replay(path)
     case = json.load(open(path))["case"]
     p = dict(case["program"])
     if "sources" not in p:
